@@ -232,7 +232,7 @@ def real_cases(tier, seed):
                 "exit:1", "exit:0", "kill:9", "read1:2000;write:formatted:all;exit:0",
                 "read1:500;exit:2"]
     for i, s in enumerate(scripts):
-        add("script", 60 if i % 2 else 1, i % 2, FAKEFMT, s)
+        add("script", 60 if i % 2 else 1, i % 2, FAKEFMT, s, sink=["vec", "file", "string"][i % 3])
     # never reads stdin on a multi-megabyte input; slow reader; big output before reading
     for s in ("exit:1", "kill:9", "write:big:all;exit:1", "write:big:all;exit:0", "closein;write:big:all;exit:2",
               "read:100000;exit:1", "read1:3000;exit:1", "readall;write:formatted:all;exit:0",
@@ -252,6 +252,8 @@ def real_cases(tier, seed):
     for size in (1, 60):
         for variant in (0, 1):
             add("prettyplease", size, variant, "", expect="tokens", formatter="prettyplease")
+            add("prettyplease-to-file", size, variant, "", expect="tokens", formatter="prettyplease", sink="file")
+            add("prettyplease-to-string", size, variant, "", expect="tokens", formatter="prettyplease", sink="string")
             add("none", size, variant, "", expect="tokens", formatter="none")
             if rustfmt:
                 add("real-rustfmt", size, variant, rustfmt, expect="tokens")
@@ -272,10 +274,10 @@ def run(tier, seed):
     # ------------------------------------------------------------ simulated tier
     cases = enumerate_cases(nbind)
     n_enum = len(cases)
-    n_rand = 300 if quick else 20000
+    n_rand = 300 if quick else 12000
     for i in range(n_rand):
         cases.append(random_case(Rng.for_case(seed, "c15-rand", i), i, nbind))
-    schedules = 12 if quick else 60
+    schedules = 12 if quick else 40
     cases = [fit_caps(c, nbind) for c in cases]
     big_first = [c for c in cases if c["bindings"] >= 4] + [c for c in cases if c["bindings"] < 4]
     # large bindings are expensive per execution: fewer schedules for them
